@@ -644,7 +644,7 @@ class Sources:
         if self._expanded is None:
             cmd = ['rustc', '+' + NIGHTLY, '-Zunpretty=expanded', '--edition', '2018', '--crate-type', 'lib',
                    '--cfg', 'feature="std"', '--cfg', 'httparse_simd', os.path.join(self.repo, 'src', 'lib.rs')]
-            p = subprocess.run(cmd, capture_output=True, text=True)
+            p = subprocess.run(cmd, capture_output=True, text=True, errors="replace")
             if p.returncode != 0:
                 raise BuildError('macro expansion of /repo failed:\n' + p.stderr[-3000:])
             self._expanded = p.stdout
